@@ -3,7 +3,7 @@
    access on any NUL-terminated input), canonical form of the accepted
    components, clone. *)
 From Coq Require Import List Arith Lia Bool NArith.
-From NngV Require Import Base.ListX Url.Utf8Model Url.Utf8Spec Url.Utf8Proofs Url.CanonModel Url.CanonPure
+From NngV Require Import Base.ListX Url.Utf8Model Url.Utf8Spec Url.Utf8Proofs Url.CanonModel Url.CanonPure Url.CanonRefine
   Url.CanonSpec Url.UrlParseModel.
 Import ListNotations.
 Local Open Scope N_scope.
@@ -203,8 +203,10 @@ Proof.
 Qed.
 
 (* ------------------------------------------------------------ "at" forms of the buffer lemmas *)
-Ltac lsolve := repeat rewrite <- app_assoc; cbn [app]; reflexivity.
-Ltac lensolve := repeat rewrite app_length; cbn [length]; lia.
+Ltac lnorm := repeat first [rewrite <- app_assoc | progress cbn [app]].
+Ltac lsolve := lnorm; reflexivity.
+Ltac lensolve := repeat first [rewrite app_length | progress cbn [length]]; lia.
+Ltac fin := lnorm; repeat first [rewrite app_length | progress cbn [length]]; repeat (f_equal; try lia); try reflexivity.
 
 Lemma scan_at stop b pre mid post n : b = pre ++ mid ++ 0 :: post -> n = length pre -> stop 0 = true ->
   c_scan stop b n = Some (n + stop_idx stop mid)%nat.
@@ -305,6 +307,577 @@ Proof.
   rewrite (bwr_at _ (auth ++ 0 :: [y1; y2]) 0 after _ c) by (try lsolve; lensolve).
   cbn [ulift ubind].
   exists auth, rem, y1, y2. repeat split; auto.
-  f_equal. f_equal. rewrite <- Hca. lsolve.
-  Show.
+  f_equal. f_equal; [rewrite <- Hca; lsolve | lia].
 Qed.
+
+(* ------------------------------------------------------------ phase 4 *)
+Definition stop_at (c : N) : bool := (c =? 64) || (c =? 0).
+
+Lemma stop_at_nz x : byte_nz x -> stop_at x = true -> x = 64.
+Proof. intros Hx H. unfold stop_at in H. rewrite (nz_neq0 _ Hx), orb_false_r in H. apply N.eqb_eq. exact H. Qed.
+
+(* strchr on a NUL-terminated text at the end of [pre] *)
+Lemma strchr_form pre mid post : nz mid ->
+  (stop_idx stop_at mid = length mid /\ forallb (fun c => negb (stop_at c)) mid = true /\
+   c_strchr (pre ++ mid ++ 0 :: post) (length pre) 64 = Some None) \/
+  (exists m1 m2, mid = m1 ++ 64 :: m2 /\ forallb (fun c => negb (stop_at c)) m1 = true /\
+   c_strchr (pre ++ mid ++ 0 :: post) (length pre) 64 = Some (Some (length pre + length m1)%nat)).
+Proof.
+  intros Hm. unfold c_strchr. change (fun c : N => (c =? 64) || (c =? 0)) with stop_at.
+  rewrite scan_form by reflexivity.
+  destruct (stop_idx_split stop_at mid) as [[H1 H2]|(m1 & x & m2 & H1 & H2 & H3 & H4)].
+  - left. repeat split; auto. rewrite H1.
+    rewrite (brd_at _ (pre ++ mid) 0 post) by (try lsolve; lensolve). reflexivity.
+  - right. assert (x = 64). { apply stop_at_nz; auto. subst mid. apply nz_app in Hm. destruct Hm as [_ Hm]. apply nz_cons in Hm. tauto. }
+    subst x. exists m1, m2. repeat split; auto. rewrite <- H2.
+    rewrite (brd_at _ (pre ++ m1) 64 (m2 ++ 0 :: post)) by (try lensolve; subst mid; lsolve). reflexivity.
+Qed.
+
+Lemma parse_userinfo_spec auth T : nz auth ->
+  match parse_userinfo (auth ++ 0 :: T) with
+  | UOob => False
+  | UErr _ => True
+  | UVal (b', ui, h) =>
+      exists pre hp, b' = pre ++ hp ++ 0 :: T /\ h = length pre /\ nz hp /\
+        (length pre + length hp = length auth)%nat /\
+        ((pre = [] /\ hp = auth /\ ui = None) \/
+         (exists u, pre = u ++ [0] /\ auth = u ++ 64 :: hp /\ ui = Some O))
+  end.
+Proof.
+  intros Ha. unfold parse_userinfo.
+  destruct (strchr_form [] auth T Ha) as [(H1 & H2 & H3)|(m1 & m2 & H1 & H2 & H3)];
+    cbn [app length] in H3; rewrite H3; cbn [ulift ubind].
+  - exists [], auth. repeat split; auto.
+  - subst auth. apply nz_app in Ha. destruct Ha as [Hm1 Hm2]. apply nz_cons in Hm2. destruct Hm2 as [_ Hm2].
+    cbn [Nat.add].
+    rewrite (bwr_at _ m1 64 (m2 ++ 0 :: T) _ 0) by (try reflexivity; lsolve).
+    cbn [ulift ubind].
+    destruct (strchr_form (m1 ++ [0]) m2 T Hm2) as [(G1 & G2 & G3)|(n1 & n2 & G1 & G2 & G3)].
+    + replace (length m1 + 1)%nat with (length (m1 ++ [0])) by lensolve.
+      replace (m1 ++ 0 :: m2 ++ 0 :: T) with ((m1 ++ [0]) ++ m2 ++ 0 :: T) by lsolve.
+      rewrite G3. cbn [ulift ubind].
+      exists (m1 ++ [0]), m2. repeat split; auto; try lensolve.
+      right. exists m1. auto.
+    + replace (length m1 + 1)%nat with (length (m1 ++ [0])) by lensolve.
+      replace (m1 ++ 0 :: m2 ++ 0 :: T) with ((m1 ++ [0]) ++ m2 ++ 0 :: T) by lsolve.
+      rewrite G3. cbn [ulift ubind]. exact I.
+Qed.
+
+(* ------------------------------------------------------------ phase 5 *)
+Lemma tolower_nz x : byte_nz x -> byte_nz (c_tolower x).
+Proof.
+  intros [H1 H2]. unfold c_tolower, c_isupper, byte_nz.
+  destruct ((65 <=? x) && (x <=? 90)) eqn:E; [|lia].
+  apply andb_true_iff in E. destruct E as [E1 E2]. apply N.leb_le in E1, E2. lia.
+Qed.
+
+Lemma lower_host_spec pre hp T : nz hp ->
+  lower_host (pre ++ hp ++ 0 :: T) (length pre) = UVal (pre ++ map c_tolower hp ++ 0 :: T) /\
+  nz (map c_tolower hp).
+Proof.
+  intros Hh. unfold lower_host. rewrite strlen_form by exact Hh. cbn [ulift ubind].
+  rewrite (sub_form pre hp (0 :: T)). cbn [ulift ubind].
+  rewrite (blit_form pre hp (0 :: T)) by apply map_length. cbn [ulift ubind]. split; [reflexivity|].
+  unfold nz in *. apply Forall_map. eapply Forall_impl; [|exact Hh]. intros a. apply tolower_nz.
+Qed.
+
+(* ------------------------------------------------------------ reading C strings behind a prefix *)
+Lemma scan_app stop (X T : list N) k : c_scan stop (X ++ T) (length X + k) = option_map (Nat.add (length X)) (c_scan stop T k).
+Proof.
+  unfold c_scan. rewrite skipn_app. rewrite skipn_all2 by lia. cbn [app].
+  replace (length X + k - length X)%nat with k by lia.
+  destruct (c_find_idx stop (skipn k T)); cbn [option_map]; [f_equal; lia | reflexivity].
+Qed.
+
+Lemma cstr_at_app (X T : list N) k : cstr_at (X ++ T) (length X + k) = cstr_at T k.
+Proof.
+  unfold cstr_at, c_strlen. rewrite scan_app.
+  destruct (c_scan c_is0 T k) as [j|] eqn:E; cbn [option_map]; [|reflexivity].
+  replace (length X + j - (length X + k))%nat with (j - k)%nat by lia.
+  unfold sub. rewrite app_length.
+  assert (Hj: (k <= j)%nat).
+  { unfold c_scan in E. destruct (c_find_idx c_is0 (skipn k T)); cbn in E; [|discriminate]. inversion E. lia. }
+  destruct (k + (j - k) <=? length T)%nat eqn:E1.
+  - apply Nat.leb_le in E1. destruct (length X + k + (j - k) <=? length X + length T)%nat eqn:E2;
+      [|apply Nat.leb_gt in E2; lia].
+    f_equal. f_equal. rewrite skipn_app. rewrite skipn_all2 by lia. cbn [app]. f_equal. lia.
+  - apply Nat.leb_gt in E1. destruct (length X + k + (j - k) <=? length X + length T)%nat eqn:E2;
+      [apply Nat.leb_le in E2; lia|reflexivity].
+Qed.
+
+Lemma opt_cstr_app (X T : list N) o :
+  opt_cstr (X ++ T) (option_map (Nat.add (length X)) o) = opt_cstr T o.
+Proof. destruct o as [k|]; cbn [option_map opt_cstr]; [rewrite cstr_at_app|]; reflexivity. Qed.
+
+(* ------------------------------------------------------------ phase 7 *)
+Definition stopqf (c : N) : bool := (c =? 0) || (c =? 63) || (c =? 35).
+Definition stophash (c : N) : bool := (c =? 0) || (c =? 35).
+
+Lemma path_part_nostop l : forallb (fun c => negb (stopqf c)) l = true -> forall r, path_part (l ++ r) = l ++ path_part r.
+Proof.
+  induction l as [|c l IH]; intros H r; [reflexivity|].
+  cbn [forallb] in H. apply andb_true_iff in H. destruct H as [H1 H2].
+  cbn [app path_part]. unfold stopqf in H1.
+  destruct ((c =? 63) || (c =? 35)) eqn:E.
+  - exfalso. rewrite <- orb_assoc, E, orb_true_r in H1. discriminate.
+  - rewrite IH by exact H2. reflexivity.
+Qed.
+
+Definition qf_text (qs fs : option (list N)) : list N :=
+  match qs with Some s => 63 :: s | None => [] end ++ match fs with Some s => 35 :: s | None => [] end.
+
+Lemma parse_qf_spec P out T : nz out ->
+  exists tl7 qk fk qs fs,
+    parse_qf (P ++ out ++ 0 :: T) (length P) =
+      UVal (P ++ tl7, option_map (Nat.add (length P)) qk, option_map (Nat.add (length P)) fk) /\
+    cstr_at tl7 0 = Some (path_part out) /\
+    opt_cstr tl7 qk = Some qs /\ opt_cstr tl7 fk = Some fs /\
+    out = path_part out ++ qf_text qs fs /\ length tl7 = length (out ++ 0 :: T).
+Proof.
+  intros Ho. unfold parse_qf.
+  change (fun c : N => (c =? 0) || (c =? 63) || (c =? 35)) with stopqf.
+  change (fun c : N => (c =? 0) || (c =? 35)) with stophash.
+  rewrite scan_form by reflexivity. cbn [ulift ubind].
+  destruct (stop_idx_split stopqf out) as [[H1 H2]|(pa & x & m2 & H1 & H2 & H3 & H4)].
+  - (* no query, no fragment *)
+    rewrite H1. rewrite (brd_at _ (P ++ out) 0 T) by (try lsolve; lensolve). cbn [ulift ubind].
+    change (0 =? 63) with false. change (0 =? 35) with false. cbn iota.
+    exists (out ++ 0 :: T), None, None, None, None. cbn [option_map opt_cstr qf_text app].
+    assert (Hp: path_part out = out).
+    { rewrite <- (app_nil_r out) at 1. rewrite path_part_nostop by exact H2. cbn [path_part]. apply app_nil_r. }
+    rewrite Hp, app_nil_r. repeat split; auto.
+    apply (cstr_at_at _ [] out T); auto.
+  - subst out. apply nz_app in Ho. destruct Ho as [Hpa Hx]. apply nz_cons in Hx. destruct Hx as [Hx Hm2].
+    assert (Hp: path_part (pa ++ x :: m2) = pa).
+    { rewrite path_part_nostop by exact H4. cbn [path_part].
+      unfold stopqf in H3. rewrite (nz_neq0 _ Hx) in H3. cbn [orb] in H3. rewrite H3. apply app_nil_r. }
+    rewrite Hp. rewrite <- H2.
+    rewrite (brd_at _ (P ++ pa) x (m2 ++ 0 :: T)) by (try lsolve; lensolve). cbn [ulift ubind].
+    destruct (x =? 63) eqn:E63.
+    + apply N.eqb_eq in E63. subst x.
+      rewrite (bwr_at _ (P ++ pa) 63 (m2 ++ 0 :: T) _ 0) by (try lsolve; lensolve). cbn [ulift ubind].
+      rewrite (scan_at stophash _ (P ++ pa ++ [0]) m2 T) by (try lsolve; try lensolve; reflexivity).
+      cbn [ulift ubind].
+      destruct (stop_idx_split stophash m2) as [[G1 G2]|(qa & y & fr & G1 & G2 & G3 & G4)].
+      * rewrite G1. rewrite (brd_at _ (P ++ pa ++ 0 :: m2) 0 T) by (try lsolve; lensolve). cbn [ulift ubind].
+        change (0 =? 35) with false. cbn iota.
+        exists (pa ++ 0 :: m2 ++ 0 :: T), (Some (S (length pa))), None, (Some m2), None.
+        cbn [option_map opt_cstr qf_text].
+        repeat split.
+        -- fin.
+        -- apply (cstr_at_at _ [] pa (m2 ++ 0 :: T)); auto.
+        -- rewrite (cstr_at_at _ (pa ++ [0]) m2 T) by (auto; try lsolve; lensolve). reflexivity.
+        -- unfold qf_text; cbn [app]; try rewrite app_nil_r; reflexivity.
+        -- lensolve.
+      * subst m2. apply nz_app in Hm2. destruct Hm2 as [Hqa Hy]. apply nz_cons in Hy. destruct Hy as [Hy Hfr].
+        assert (y = 35). { unfold stophash in G3. rewrite (nz_neq0 _ Hy) in G3. apply N.eqb_eq. exact G3. }
+        subst y. rewrite <- G2.
+        rewrite (brd_at _ (P ++ pa ++ 0 :: qa) 35 (fr ++ 0 :: T)) by (try lsolve; lensolve). cbn [ulift ubind].
+        change (35 =? 35) with true. cbn iota.
+        rewrite (bwr_at _ (P ++ pa ++ 0 :: qa) 35 (fr ++ 0 :: T) _ 0) by (try lsolve; lensolve). cbn [ulift ubind].
+        exists (pa ++ 0 :: qa ++ 0 :: fr ++ 0 :: T), (Some (S (length pa))), (Some (S (length pa) + S (length qa))%nat),
+               (Some qa), (Some fr).
+        cbn [option_map opt_cstr qf_text].
+        repeat split.
+        -- fin.
+        -- apply (cstr_at_at _ [] pa (qa ++ 0 :: fr ++ 0 :: T)); auto.
+        -- rewrite (cstr_at_at _ (pa ++ [0]) qa (fr ++ 0 :: T)) by (auto; try lsolve; lensolve). reflexivity.
+        -- rewrite (cstr_at_at _ (pa ++ 0 :: qa ++ [0]) fr T) by (auto; try lsolve; lensolve). reflexivity.
+        -- lensolve.
+    + assert (x = 35).
+      { unfold stopqf in H3. rewrite (nz_neq0 _ Hx), E63 in H3. apply N.eqb_eq. exact H3. }
+      subst x. change (35 =? 35) with true. cbn iota.
+      rewrite (bwr_at _ (P ++ pa) 35 (m2 ++ 0 :: T) _ 0) by (try lsolve; lensolve). cbn [ulift ubind].
+      exists (pa ++ 0 :: m2 ++ 0 :: T), None, (Some (S (length pa))), None, (Some m2).
+      cbn [option_map opt_cstr qf_text].
+      repeat split.
+      * fin.
+      * apply (cstr_at_at _ [] pa (m2 ++ 0 :: T)); auto.
+      * rewrite (cstr_at_at _ (pa ++ [0]) m2 T) by (auto; try lsolve; lensolve). reflexivity.
+      * lensolve.
+Qed.
+
+(* ------------------------------------------------------------ phase 8 *)
+Definition stopcolon (c : N) : bool := (c =? 58) || (c =? 0).
+Definition stopbrk (c : N) : bool := (c =? 93) || (c =? 0).
+
+Lemma stop_nz_eq x k : byte_nz x -> ((x =? k) || (x =? 0)) = true -> x = k.
+Proof. intros Hx H. rewrite (nz_neq0 _ Hx), orb_false_r in H. apply N.eqb_eq. exact H. Qed.
+
+(* the tail of phase 8, after the host name [ho] has been delimited: the
+   buffer is A ++ ho ++ 0 :: R with h' = |A|; [c] is the delimiter that was
+   found (':' or NUL) and, if ':', R = pt ++ 0 :: T holds the port text *)
+Lemma hostport_tail resolver sch A ho R (c : N) b2 p2 :
+  nz ho ->
+  b2 = A ++ ho ++ 0 :: R ->
+  (c = 58 -> exists G pt T, nz pt /\ R = G ++ pt ++ 0 :: T /\ p2 = (length A + length ho + 1 + length G)%nat) ->
+  match (hl <~! c_strlen b2 (length A) ;;
+         if (HOST_MAX <=? hl)%nat then UErr NNG_EINVAL else
+         if c =? 58 then
+           c1 <~! brd b2 p2 ;;
+           if c1 =? 0 then UErr NNG_EINVAL else
+           name <~! cstr_at b2 p2 ;;
+           match get_port resolver name with
+           | None => UErr NNG_EINVAL
+           | Some port => UVal (b2, length A, port)
+           end
+         else UVal (b2, length A, default_port sch)) with
+  | UOob => False
+  | UErr _ => True
+  | UVal (b', h', port) => b' = b2 /\ h' = length A /\ (length ho < HOST_MAX)%nat
+  end.
+Proof.
+  intros Hho -> HR.
+  rewrite (strlen_at _ A ho R) by auto. cbn [ulift ubind].
+  destruct (HOST_MAX <=? length ho)%nat eqn:E; [exact I|]. apply Nat.leb_gt in E.
+  destruct (N.eqb_spec c 58) as [Ec|Ec]; [|auto].
+  destruct (HR Ec) as (G & pt & T & Hpt & -> & ->).
+  destruct pt as [|a1 ar].
+  - rewrite (brd_at _ (A ++ ho ++ 0 :: G) 0 T) by (try lsolve; lensolve). cbn [ulift ubind]. exact I.
+  - rewrite (brd_at _ (A ++ ho ++ 0 :: G) a1 (ar ++ 0 :: T)) by (try lsolve; lensolve). cbn [ulift ubind].
+    apply nz_cons in Hpt. destruct Hpt as [Ha1 Har]. rewrite (nz_neq0 _ Ha1).
+    rewrite (cstr_at_at _ (A ++ ho ++ 0 :: G) (a1 :: ar) T) by (try lsolve; try lensolve; apply nz_cons; auto).
+    cbn [ulift ubind]. destruct (get_port resolver (a1 :: ar)); auto.
+Qed.
+
+(* finishing step shared by all branches *)
+Lemma hostport_finish (t : ures (list N * nat * N)) b2 A ho R pre X2 T hp :
+  match t with
+  | UOob => False
+  | UErr _ => True
+  | UVal (b', h', port) => b' = b2 /\ h' = length A /\ (length ho < HOST_MAX)%nat
+  end ->
+  nz ho -> b2 = A ++ ho ++ 0 :: R -> b2 = pre ++ X2 ++ T -> length X2 = (length hp + 1)%nat ->
+  (exists a c, hp = a ++ ho ++ c) ->
+  match t with
+  | UOob => False
+  | UErr _ => True
+  | UVal (b', h', port) =>
+      exists X2 host, b' = pre ++ X2 ++ T /\ length X2 = (length hp + 1)%nat /\
+        cstr_at b' h' = Some host /\ (length host < HOST_MAX)%nat /\
+        (exists a c, hp = a ++ host ++ c)
+  end.
+Proof.
+  destruct t as [|rv|[[b' h'] port]]; auto.
+  intros (-> & -> & Hl) Hho E1 E2 HL Hsub.
+  exists X2, ho. repeat split; auto.
+  rewrite E1. apply (cstr_at_at _ A ho R); auto.
+Qed.
+
+Lemma parse_hostport_spec resolver sch pre hp T : nz hp ->
+  match parse_hostport resolver sch (pre ++ hp ++ 0 :: T) (length pre) with
+  | UOob => False
+  | UErr _ => True
+  | UVal (b', h', port) =>
+      exists X2 host, b' = pre ++ X2 ++ T /\ length X2 = (length hp + 1)%nat /\
+        cstr_at b' h' = Some host /\ (length host < HOST_MAX)%nat /\
+        (exists a c, hp = a ++ host ++ c)
+  end.
+Proof.
+  intros Hhp. unfold parse_hostport.
+  change (fun c : N => (c =? 93) || (c =? 0)) with stopbrk.
+  change (fun c : N => (c =? 58) || (c =? 0)) with stopcolon.
+  assert (Hc0: exists c0 r0, hp ++ 0 :: T = c0 :: r0 /\ (c0 = 91 -> exists hr, hp = 91 :: hr)).
+  { destruct hp as [|c0 hr]; [exists 0, T | exists c0, (hr ++ 0 :: T)]; split; auto; try discriminate.
+    intros ->. eauto. }
+  destruct Hc0 as (c0 & r0 & Er0 & H91).
+  rewrite (brd_at _ pre c0 r0) by (try reflexivity; rewrite <- Er0; reflexivity). cbn [ulift ubind].
+  destruct (N.eqb_spec c0 91) as [E91|E91].
+  - (* bracketed literal *)
+    destruct (H91 E91) as (hr & ->). clear H91 Er0 r0 E91 c0.
+    apply nz_cons in Hhp. destruct Hhp as [_ Hhr].
+    rewrite (scan_at stopbrk _ (pre ++ [91]) hr T) by (try lsolve; try lensolve; reflexivity).
+    cbn [ulift ubind].
+    destruct (stop_idx_split stopbrk hr) as [[H1 H2]|(ho & x & af & H1 & H2 & H3 & H4)].
+    + rewrite H1. rewrite (brd_at _ (pre ++ 91 :: hr) 0 T) by (try lsolve; lensolve). cbn [ulift ubind].
+      change (0 =? 0) with true. cbn iota. cbn [ubind]. exact I.
+    + subst hr. apply nz_app in Hhr. destruct Hhr as [Hho Hx]. apply nz_cons in Hx. destruct Hx as [Hx Haf].
+      assert (x = 93) by (apply stop_nz_eq; auto). subst x. rewrite <- H2.
+      rewrite (brd_at _ (pre ++ 91 :: ho) 93 (af ++ 0 :: T)) by (try lsolve; lensolve). cbn [ulift ubind].
+      change (93 =? 0) with false. cbn iota.
+      rewrite (bwr_at _ (pre ++ 91 :: ho) 93 (af ++ 0 :: T) _ 0) by (try lsolve; lensolve). cbn [ulift ubind].
+      destruct af as [|a0 ar].
+      * (* nothing after the bracket *)
+        rewrite (brd_at _ (pre ++ 91 :: ho ++ [0]) 0 T) by (try lsolve; lensolve). cbn [ulift ubind].
+        change (0 =? 58) with false. change (0 =? 0) with true. cbn [negb andb]. cbn [ubind].
+        rewrite (brd_at _ (pre ++ 91 :: ho ++ [0]) 0 T) by (try lsolve; lensolve). cbn [ulift ubind].
+        change (0 =? 58) with false. cbn iota. cbn [ubind].
+        replace (S (length pre)) with (length (pre ++ [91])) by lensolve.
+        lnorm. set (b2 := pre ++ 91 :: ho ++ 0 :: 0 :: T).
+        apply (hostport_finish _ b2 (pre ++ [91]) ho (0 :: T) pre (91 :: ho ++ 0 :: [0]) T);
+          [ apply (hostport_tail resolver sch (pre ++ [91]) ho (0 :: T) 0 b2 O);
+              [auto | subst b2; lsolve | intros; discriminate]
+          | auto | subst b2; lsolve | subst b2; lsolve | lensolve | exists [91], [93]; lsolve ].
+      * apply nz_cons in Haf. destruct Haf as [Ha0 Har].
+        rewrite (brd_at _ (pre ++ 91 :: ho ++ [0]) a0 (ar ++ 0 :: T)) by (try lsolve; lensolve). cbn [ulift ubind].
+        rewrite (nz_neq0 _ Ha0). cbn [negb andb].
+        destruct (N.eqb_spec a0 58) as [E58|E58]; cbn [negb andb]; [|exact I].
+        subst a0. cbn [ubind].
+        rewrite (brd_at _ (pre ++ 91 :: ho ++ [0]) 58 (ar ++ 0 :: T)) by (try lsolve; lensolve). cbn [ulift ubind].
+        change (58 =? 58) with true. cbn iota.
+        rewrite (bwr_at _ (pre ++ 91 :: ho ++ [0]) 58 (ar ++ 0 :: T) _ 0) by (try lsolve; lensolve). cbn [ulift ubind].
+        replace (S (length pre)) with (length (pre ++ [91])) by lensolve.
+        lnorm. set (b2 := pre ++ 91 :: ho ++ 0 :: 0 :: ar ++ 0 :: T).
+        apply (hostport_finish _ b2 (pre ++ [91]) ho (0 :: ar ++ 0 :: T) pre (91 :: ho ++ 0 :: 0 :: ar ++ [0]) T);
+          [ apply (hostport_tail resolver sch (pre ++ [91]) ho (0 :: ar ++ 0 :: T) 58 b2);
+              [auto | subst b2; lsolve | intros _; exists [0], ar, T; repeat split; auto; lensolve]
+          | auto | subst b2; lsolve | subst b2; lsolve | lensolve | exists [91], (93 :: 58 :: ar); lsolve ].
+  - (* plain host *)
+    clear H91.
+    rewrite (scan_at stopcolon _ pre hp T) by (try lsolve; reflexivity). cbn [ulift ubind].
+    destruct (stop_idx_split stopcolon hp) as [[H1 H2]|(ho & x & pt & H1 & H2 & H3 & H4)].
+    + rewrite H1. rewrite (brd_at _ (pre ++ hp) 0 T) by (try lsolve; lensolve). cbn [ulift ubind].
+      change (0 =? 58) with false. cbn iota. cbn [ubind].
+      lnorm. set (b2 := pre ++ hp ++ 0 :: T).
+      apply (hostport_finish _ b2 pre hp T pre (hp ++ [0]) T);
+        [ apply (hostport_tail resolver sch pre hp T 0 b2 O); [auto | reflexivity | intros; discriminate]
+        | auto | reflexivity | subst b2; lsolve | lensolve | exists [], []; rewrite app_nil_r; reflexivity ].
+    + subst hp. apply nz_app in Hhp. destruct Hhp as [Hho Hx]. apply nz_cons in Hx. destruct Hx as [Hx Hpt].
+      assert (x = 58) by (apply stop_nz_eq; auto). subst x. rewrite <- H2.
+      rewrite (brd_at _ (pre ++ ho) 58 (pt ++ 0 :: T)) by (try lsolve; lensolve). cbn [ulift ubind].
+      change (58 =? 58) with true. cbn iota.
+      rewrite (bwr_at _ (pre ++ ho) 58 (pt ++ 0 :: T) _ 0) by (try lsolve; lensolve). cbn [ulift ubind].
+      lnorm. set (b2 := pre ++ ho ++ 0 :: pt ++ 0 :: T).
+      apply (hostport_finish _ b2 pre ho (pt ++ 0 :: T) pre (ho ++ 0 :: pt ++ [0]) T);
+        [ apply (hostport_tail resolver sch pre ho (pt ++ 0 :: T) 58 b2);
+            [auto | reflexivity | intros _; exists [], pt, T; repeat split; auto; lensolve]
+        | auto | reflexivity | subst b2; lsolve | lensolve | exists [], (58 :: pt); lsolve ].
+Qed.
+
+(* ------------------------------------------------------------ phase 6 *)
+Lemma canon_pure_nz fx s out : nz s -> canon_pure fx s = Some out -> nz out.
+Proof.
+  unfold canon_pure, canon_passes. intros Hs.
+  destruct (p1 s) as [s1|] eqn:E1; [|discriminate].
+  destruct (utf8_validate fx (p3 false [] (p2 false false s1) ++ [0])) as [[|]|]; try discriminate.
+  intros H; inversion H; subst. apply p3_nz; [constructor|]. apply p2_nz. eapply p1_nz; eauto.
+Qed.
+
+Lemma canon_at_spec fx P rem tail2 : nz rem ->
+  match canon_pure fx rem with
+  | Some out => exists tail', canon_at fx (P ++ rem ++ 0 :: tail2) (length P) = UVal (P ++ out ++ 0 :: tail') /\
+                              length (out ++ 0 :: tail') = length (rem ++ 0 :: tail2) /\ nz out
+  | None => canon_at fx (P ++ rem ++ 0 :: tail2) (length P) = UErr NNG_EINVAL
+  end.
+Proof.
+  intros Hr. unfold canon_at.
+  destruct (Nat.ltb (length (P ++ rem ++ 0 :: tail2)) (length P)) eqn:E.
+  { apply Nat.ltb_lt in E. rewrite app_length in E. lia. }
+  rewrite skipn_app_exact by reflexivity. rewrite firstn_app_exact by reflexivity.
+  pose proof (canonify_refines fx rem tail2 Hr) as HC.
+  destruct (canon_pure fx rem) as [out|] eqn:Ec.
+  - destruct HC as (tail' & HC & HL). exists tail'. rewrite HC. cbn [ulift ubind].
+    change (NNG_OK =? 0) with true. cbn [negb]. repeat split; auto. eapply canon_pure_nz; eauto.
+  - rewrite HC. cbn [ulift ubind]. reflexivity.
+Qed.
+
+(* ------------------------------------------------------------ the parser as a whole *)
+Definition buf_ok (u : nurl) : Prop :=
+  (u_bufsz u = O /\ length (u_buf u) = STATIC_SZ) \/
+  (u_bufsz u = length (u_buf u) /\ (STATIC_SZ < u_bufsz u)%nat).
+
+(* everything the later theorems need to know about an accepted URL *)
+Definition parse_post (fx : uflags) (s : list N) (u : nurl) : Prop :=
+  exists len rest v,
+    s = firstn len s ++ [58; 47; 47] ++ rest /\ (len <= length s)%nat /\
+    find_scheme (fx_scheme fx) (firstn len s) = Some (u_scheme u) /\
+    url_view u = Some v /\ v_scheme v = u_scheme u /\ buf_ok u /\
+    (if is_path_only (u_scheme u) then
+       v_path v = rest /\ v_hostname v = None /\ v_userinfo v = None /\ v_query v = None /\
+       v_fragment v = None /\ v_port v = 0 /\ u_hostname u = None
+     else
+       exists auth rem out host hp,
+         rest = auth ++ rem /\ forallb (fun c => negb (stop3 c)) auth = true /\
+         (rem = [] \/ exists x m, rem = x :: m /\ stop3 x = true) /\
+         canon_pure (fx_utf8 fx) rem = Some out /\ nz out /\
+         v_path v = path_part out /\ out = path_part out ++ qf_text (v_query v) (v_fragment v) /\
+         v_hostname v = Some host /\ (length host < HOST_MAX)%nat /\
+         ((auth = hp /\ v_userinfo v = None) \/ (exists ui, auth = ui ++ 64 :: hp /\ v_userinfo v = Some ui)) /\
+         (exists a c, map c_tolower hp = a ++ host ++ c)).
+
+Lemma nostop3_nz auth : nz auth -> True. Proof. auto. Qed.
+
+Theorem url_parse_spec fx resolver s tail : nz s ->
+  match url_parse fx resolver (s ++ 0 :: tail) with
+  | UOob => False
+  | UErr _ => True
+  | UVal u => parse_post fx s u
+  end.
+Proof.
+  intros Hs. unfold url_parse.
+  pose proof (parse_scheme_spec (fx_scheme fx) s tail Hs) as H1.
+  destruct (parse_scheme (fx_scheme fx) (s ++ 0 :: tail)) as [|rv|[sch len]]; cbn [ubind]; auto.
+  destruct H1 as (rest & Es & Hlen & Hfs).
+  destruct (parse_buffer_spec s tail len Hs Hlen) as (tail2 & bufsz & Hpb & Hbsz).
+  rewrite Hpb. cbn [ubind].
+  assert (Esk: skipn len s = [58; 47; 47] ++ rest).
+  { rewrite Es at 1. rewrite skipn_app_exact; [reflexivity|]. rewrite firstn_length. lia. }
+  assert (Hrest: nz rest).
+  { rewrite Es in Hs. apply nz_app in Hs. destruct Hs as [_ Hs]. apply nz_app in Hs. tauto. }
+  rewrite Esk in *.
+  assert (Hbuf: forall b : list N, length b = length (([58; 47; 47] ++ rest) ++ 0 :: tail2) ->
+            (bufsz = O /\ length b = STATIC_SZ) \/ (bufsz = length b /\ (STATIC_SZ < bufsz)%nat)).
+  { intros b Hb. rewrite Hb. rewrite app_length. cbn [length].
+    destruct Hbsz as [[-> HL]|(-> & -> & HL)].
+    - left. split; auto. rewrite app_length in HL. cbn [length] in HL. lia.
+    - right. cbn [length]. split; lia. }
+  destruct (is_path_only sch) eqn:Epo.
+  - (* scheme://path *)
+    exists len, rest. eexists. repeat split; eauto.
+    + unfold url_view. cbn [u_buf u_userinfo u_hostname u_path u_query u_fragment u_scheme u_port opt_cstr].
+      rewrite (cstr_at_at _ [58; 47; 47] rest tail2 3) by (auto; lsolve). reflexivity.
+    + reflexivity.
+    + unfold buf_ok. cbn [u_buf u_bufsz]. apply Hbuf. reflexivity.
+    + cbn [u_scheme]. rewrite Epo. cbn [v_path v_hostname v_userinfo v_query v_fragment v_port u_hostname]. repeat split; reflexivity.
+  - (* scheme://authority path ?query #fragment *)
+    replace (([58; 47; 47] ++ rest) ++ 0 :: tail2) with ([58; 47; 47] ++ rest ++ 0 :: tail2) in * by lsolve.
+    destruct (parse_authority_spec rest tail2 Hrest) as (auth & rem & y1 & y2 & Hr & Hns & Hrem & Hpa).
+    rewrite Hpa. cbn [ubind].
+    assert (Hauth: nz auth) by (subst rest; apply nz_app in Hrest; tauto).
+    assert (Hnrem: nz rem) by (subst rest; apply nz_app in Hrest; tauto).
+    set (T := y1 :: y2 :: rem ++ 0 :: tail2).
+    pose proof (parse_userinfo_spec auth T Hauth) as H4.
+    destruct (parse_userinfo (auth ++ 0 :: T)) as [|rv|[[b4 ui] h]]; cbn [ubind]; auto.
+    destruct H4 as (pre & hp & -> & -> & Hhp & Hlen4 & Hui).
+    destruct (lower_host_spec pre hp T Hhp) as [H5 Hhp'].
+    rewrite H5. cbn [ubind].
+    set (hp' := map c_tolower hp) in *.
+    assert (Hlhp: length hp' = length hp) by apply map_length.
+    set (P := pre ++ hp' ++ [0; y1; y2]).
+    assert (EP: pre ++ hp' ++ 0 :: T = P ++ rem ++ 0 :: tail2) by (subst P T; lsolve).
+    assert (LP: (length auth + 3)%nat = length P) by (subst P; repeat rewrite app_length; cbn [length]; lia).
+    rewrite EP, LP.
+    pose proof (canon_at_spec (fx_utf8 fx) P rem tail2 Hnrem) as H6.
+    destruct (canon_pure (fx_utf8 fx) rem) as [out|] eqn:Ecp; [|rewrite H6; cbn [ubind]; exact I].
+    destruct H6 as (tail' & H6 & HL6 & Hout). rewrite H6. cbn [ubind].
+    destruct (parse_qf_spec P out tail' Hout) as (tl7 & qk & fk & qs & fs & H7 & Hpath & Hq & Hf & Eout & HL7).
+    rewrite H7. cbn [ubind].
+    assert (E7: P ++ tl7 = pre ++ hp' ++ 0 :: y1 :: y2 :: tl7) by (subst P; lsolve).
+    rewrite E7.
+    pose proof (parse_hostport_spec resolver sch pre hp' (y1 :: y2 :: tl7) Hhp') as H8.
+    destruct (parse_hostport resolver sch (pre ++ hp' ++ 0 :: y1 :: y2 :: tl7) (length pre)) as [|rv|[[b8 h'] port]];
+      cbn [ubind]; auto.
+    destruct H8 as (X2 & host & -> & HX2 & Hhost & Hhl & Hsub).
+    (* the accessors *)
+    set (Q := pre ++ X2 ++ [y1; y2]).
+    assert (EQ: pre ++ X2 ++ y1 :: y2 :: tl7 = Q ++ tl7) by (subst Q; lsolve).
+    assert (LQ: length Q = length P) by (subst Q P; repeat rewrite app_length; cbn [length]; lia).
+    assert (Hvui: exists vui, opt_cstr (Q ++ tl7) ui = Some vui /\
+              ((auth = hp /\ vui = None) \/ (exists u0, auth = u0 ++ 64 :: hp /\ vui = Some u0))).
+    { destruct Hui as [(-> & -> & ->)|(u0 & -> & -> & ->)].
+      - exists None. split; [reflexivity|]. left; auto.
+      - exists (Some u0). split; [|right; eauto]. cbn [opt_cstr].
+        rewrite (cstr_at_at _ [] u0 (X2 ++ [y1; y2] ++ tl7) 0); auto; [subst Q; lsolve|].
+        apply nz_app in Hauth. tauto. }
+    destruct Hvui as (vui & Hvui & Hvui2).
+    exists len, rest.
+    exists (mkUview sch vui (Some host) port (path_part out) qs fs).
+    repeat split; auto.
+    + unfold url_view. cbn [u_buf u_userinfo u_hostname u_path u_query u_fragment u_scheme u_port].
+      rewrite EQ. rewrite Hvui. cbn [opt_cstr]. rewrite <- EQ, Hhost, EQ.
+      rewrite <- LQ. rewrite <- (Nat.add_0_r (length Q)) at 1. rewrite cstr_at_app, Hpath.
+      rewrite !opt_cstr_app, Hq, Hf. reflexivity.
+    + unfold buf_ok. cbn [u_buf u_bufsz]. apply Hbuf.
+      rewrite HL6 in HL7. rewrite app_length in HL7. cbn [length] in HL7.
+      rewrite Hr. lensolve.
+    + cbn [u_scheme]. rewrite Epo.
+      exists auth, rem, out, host, hp. cbn [v_path v_query v_fragment v_hostname v_userinfo].
+      repeat split; auto.
+Qed.
+
+(* ------------------------------------------------------------ consequences *)
+Theorem url_parse_total fx resolver s tail : nz s -> url_parse fx resolver (s ++ 0 :: tail) <> UOob.
+Proof.
+  intros Hs E. pose proof (url_parse_spec fx resolver s tail Hs) as H. rewrite E in H. exact H.
+Qed.
+
+(* with the exact lookup the text before "://" IS the table entry *)
+Theorem url_parse_scheme_exact fx resolver s tail u : nz s -> fx_scheme fx = true ->
+  url_parse fx resolver (s ++ 0 :: tail) = UVal u ->
+  In (u_scheme u) schemes /\ exists rest, s = u_scheme u ++ [58; 47; 47] ++ rest.
+Proof.
+  intros Hs Hfx E. pose proof (url_parse_spec fx resolver s tail Hs) as H. rewrite E in H.
+  destruct H as (len & rest & v & Es & _ & Hf & _).
+  rewrite Hfx in Hf. apply find_scheme_exact in Hf. destruct Hf as [Hsch Hin].
+  split; [exact Hin|]. exists rest. rewrite Hsch. exact Es.
+Qed.
+
+(* sub-lists of a lower-cased string are lower case *)
+Lemma tolower_not_upper c : CanonSpec.sp_upper (c_tolower c) = false.
+Proof.
+  unfold c_tolower, c_isupper, CanonSpec.sp_upper.
+  destruct ((65 <=? c) && (c <=? 90)) eqn:E.
+  - apply andb_true_iff in E. destruct E as [E1 E2]. apply N.leb_le in E1, E2.
+    apply andb_false_iff. right. apply N.leb_gt. lia.
+  - exact E.
+Qed.
+
+Lemma host_lower_sub hp a host c : map c_tolower hp = a ++ host ++ c ->
+  forallb (fun x => negb (CanonSpec.sp_upper x)) host = true.
+Proof.
+  intros E. apply forallb_forall. intros x Hx.
+  assert (Hin: In x (map c_tolower hp)). { rewrite E. apply in_or_app. right. apply in_or_app. left. exact Hx. }
+  apply in_map_iff in Hin. destruct Hin as (y & <- & _). rewrite tolower_not_upper. reflexivity.
+Qed.
+
+(* ------------------------------------------------------------ clone *)
+Lemma sub_all {A} (b : list A) : sub b 0 (length b) = Some b.
+Proof. rewrite sub_Some by lia. simpl. rewrite firstn_all. reflexivity. Qed.
+
+Lemma blit_all (d : list N) : blit (uzeros (length d)) 0 d = Some d.
+Proof.
+  unfold uzeros. rewrite blit_Some by (rewrite repeat_length; lia). simpl.
+  rewrite skipn_all2 by (rewrite repeat_length; lia). apply f_equal. apply app_nil_r.
+Qed.
+
+(* the repaired clone returns a URL with the same storage contents and the
+   same component offsets -- in the model: the same value *)
+Theorem url_clone_equal u : buf_ok u -> url_clone true true u = UVal (0, Some u).
+Proof.
+  intros [[Hz HL]|[Hz HL]]; unfold url_clone; destruct u as [sch ui h port path q f buf bufsz];
+    cbn [u_bufsz u_buf u_scheme u_userinfo u_hostname u_port u_path u_query u_fragment] in *.
+  - subst bufsz. cbn [Nat.eqb negb]. rewrite <- HL. rewrite sub_all. cbn [ulift ubind].
+    rewrite blit_all. cbn [ulift ubind]. unfold clone_host. destruct h; reflexivity.
+  - subst bufsz. destruct (length buf =? 0)%nat eqn:E; [apply Nat.eqb_eq in E; unfold STATIC_SZ in HL; lia|].
+    cbn [negb]. rewrite sub_all. cbn [ulift ubind]. rewrite blit_all. cbn [ulift ubind].
+    unfold clone_host. destruct h; reflexivity.
+Qed.
+
+(* ------------------------------------------------------------ the pinned tree's defects *)
+Definition no_resolver (_ : list N) : option N := None.
+Definition http_ := [104; 116; 116; 112].
+
+(* "ht://h/" is accepted as http *)
+Lemma scheme_prefix_witness :
+  exists u, url_parse fx_pinned no_resolver ([104; 116; 58; 47; 47; 104; 47] ++ [0]) = UVal u /\
+            u_scheme u = http_ /\ firstn 2 (u_scheme u) = [104; 116] /\ length (u_scheme u) = 4%nat.
+Proof. vm_compute. eexists. repeat split. Qed.
+
+(* "://h/" too *)
+Lemma scheme_empty_witness :
+  exists u, url_parse fx_pinned no_resolver ([58; 47; 47; 104; 47] ++ [0]) = UVal u /\ u_scheme u = http_.
+Proof. vm_compute. eexists. repeat split. Qed.
+
+Definition long_url : list N := [104; 116; 116; 112; 58; 47; 47; 104; 47] ++ repeat 97 130.
+
+(* the clone of a URL longer than the inline buffer fails with rv 1 *)
+Lemma clone_long_witness :
+  exists u, url_parse fx_pinned no_resolver (long_url ++ [0]) = UVal u /\ buf_ok u /\
+            url_clone false false u = UVal (1, None) /\ url_clone true true u = UVal (0, Some u).
+Proof.
+  vm_compute. eexists. split; [reflexivity|]. split; [right; split; [reflexivity|]|split; reflexivity].
+  unfold STATIC_SZ. cbn [u_bufsz]. lia.
+Qed.
+
+(* the clone of ipc://a has a host-name pointer although the original has none *)
+Lemma clone_null_host_witness :
+  exists u c, url_parse fx_pinned no_resolver ([105; 112; 99; 58; 47; 47; 97] ++ [0]) = UVal u /\
+              u_hostname u = None /\ url_clone false false u = UVal (0, Some c) /\
+              is_wild (u_buf c) (u_hostname c) = true /\ url_view c = None.
+Proof. vm_compute. eexists. eexists. repeat split. Qed.
+
+(* decimal ports print and read back *)
+Lemma dec_port_roundtrip : forallb (fun v => match get_port no_resolver (dec_string v) with
+                                             | Some w => w =? v | None => false end)
+                                   (map N.of_nat (seq 0 65536)) = true.
+Proof. vm_compute. reflexivity. Qed.
